@@ -3,7 +3,7 @@
 //@ props: C10 C08
 //@ expect: postcondition>=5 canary=5
 #include "_unit.h"
-/* lists of 0..2^20-1 elements; str NULL or any str_len (0..2^20) bytes */
+/* lists of 0..2^16-1 elements; str NULL or any str_len (0..2^16) bytes */
 void harness(void)
 {
     xv_ghost_havoc(); xc_ghost_havoc();
